@@ -98,12 +98,31 @@ def writer_mechanism(s, known):
             s.binding_selftest(m, "WriterTrace", corrupt, constants={"N": n}, expect="Conforms")
 
 
+def play_mechanism(s, known):
+    """The how-layer of playing a document: Play.tla (Opt cells) model-checked against the declarative meaning, and
+    call traces of the real play package validated against the same actions."""
+    s.model("PlayMC", workers=8)
+    if not s.inproc_ok:
+        return
+    m = s.drive("play", binary=s.vinproc)
+    s.validate(m, "PlayTrace", known=known, shard=max(10, len_records(m) // 8 + 1))
+
+    def corrupt(rec):
+        for c in rec["calls"]:
+            if c[0] == "tempo":
+                c[1] += 1
+                return
+    s.binding_selftest(m, "PlayTrace", corrupt, expect="Conforms")
+
+
 def _write(prop, driver, expl):
     def plan(s, known):
-        s.build(need_inproc=prop in ("C02", "C06"))
+        s.build(need_inproc=prop in ("C01", "C02", "C06", "C07"))
         s.model("TheoryMC", workers=4)
         if prop in ("C02", "C06"):
             writer_mechanism(s, known)
+        if prop in ("C01", "C07"):
+            play_mechanism(s, known)
         m = s.drive(driver)
         s.validate(m, "WriteTrace", cfg=prop + "Trace.cfg", known=known, shard=max(20, len_records(m) // 12 + 1))
         return dict(level="model_checking", explanation=expl)
